@@ -18,8 +18,8 @@ META = {
     'text': 'Coq theorems (Props/C14.v), by induction over socket scripts of any length: RecordSocket reads over a plain or '
             'buffered socket are a function of the byte stream and its terminal event only (any chunking, any would-blocks; '
             'yields = would-blocks consumed; EOF = TLSAbruptCloseError; blocking = generator run to completion); '
-            '_sockSendAll emits exactly the data under every partial-accept/would-block schedule; BufferedSocket keeps order '
-            'over every partial-accept schedule (and is REFUTED for would-block during flush: finding); the Defragmenter '
+            '_sockSendAll emits exactly the data under every partial-accept/would-block schedule; a buffered flight flushed with '
+            'flush_async IS one _sockSendAll of the concatenation for every schedule (flush() is a blocking-socket API, never reached by generators); the Defragmenter '
             'extracts, per content type, exactly the messages of the concatenated stream for every cut into records. '
             'Models are compared with the real classes on scripted sockets by vm_compute; whole live handshakes + data + '
             'close are run under adversarial/random schedules, through generators, AsyncStateMachine and blocking calls, '
@@ -31,10 +31,10 @@ META = {
 }
 
 IMPORTS = ['Model.C14_Transport', 'Model.C14_Buffered', 'Model.C14_Defrag', 'Model.C14_Check', 'Model.C14_AsyncSM']
-FLUSH_KEY = 'flush-wouldblock'
-FLUSH_WHAT = ('BufferedSocket.flush() uses socket.sendall: a would-block while a buffered flight is flushed escapes the '
-              'generator API as socket.error(EWOULDBLOCK) instead of "yield 1", the connection is torn down and the '
-              'unsent part of the flight is lost (queue already cleared)')
+WB_KEY = 'escape-EWOULDBLOCK'
+WB_WHAT = ('a would-block reported by the socket escapes the generator API as socket.error(EWOULDBLOCK) instead of a '
+           '"yield 1" (before /repo 8168763: BufferedSocket.flush() -> socket.sendall while a buffered flight is flushed; '
+           'the connection is torn down and the unsent part of the flight is lost)')
 
 
 def jb(x):
@@ -117,9 +117,12 @@ def check_send_direct(ctx, case, impl):
 
 
 def check_buf_direct(ctx, case, impl):
-    """no hard failure in the schedule and a disciplined use => everything sent is on the wire or
-    still queued, in order, and nothing is raised"""
+    """disciplined use, no hard failure in the schedule => everything sent is on the wire or still
+    queued, in order, and nothing is raised.  With the generator flush (flush_async) this must hold
+    for EVERY schedule; with the blocking-socket flush() only for accept-only schedules."""
     if not case['cls'][1] or first_hard_failure(case['script']) is not None:
+        return False
+    if case['cls'][2] == 'sync' and any(e[0] != 'A' for e in case['script']):
         return False
     sent = b''.join(op[1] for op in case['ops'] if op[0] == 'S')
     bad = None
@@ -131,10 +134,10 @@ def check_buf_direct(ctx, case, impl):
         bad = 'wire is not a prefix of the data sent'
     if bad:
         wb = impl['out'] == ('raised', ('sock', errno.EWOULDBLOCK))
-        ctx.violation(FLUSH_KEY if wb else 'unit-buffered:%s' % impl['out'][0],
-                      FLUSH_WHAT if wb else 'BufferedSocket under a schedule without hard failures: ' + bad,
+        ctx.violation(WB_KEY + ':unit-buffered' if wb else 'unit-buffered:%s' % impl['out'][0],
+                      WB_WHAT if wb else 'BufferedSocket under a schedule without hard failures: ' + bad,
                       {'kind': 'buf', 'case': jb({k: v for k, v in case.items() if k != 'cls'}), 'impl': jb(impl)})
-        return not wb
+        return True
     return False
 
 
@@ -162,7 +165,9 @@ def check_feed_direct(ctx, rng, fc):
 def sys_key(s, diffs, outcome):
     txt = repr(diffs) + repr(outcome)
     if "('SockError', %d)" % errno.EWOULDBLOCK in txt:
-        return FLUSH_KEY if s.get('sendall_blocks') else 'escape-EWOULDBLOCK:' + s.get('api', 'gen')
+        return WB_KEY + ':' + s.get('api', 'gen')
+    if diffs[0][0] == 'sendall-reached':
+        return 'sync-flush-reached:' + s.get('api', 'gen')
     what = 'reframe-' + s['reframe'] if s.get('reframe') else s.get('api', 'gen')
     return 'sys:%s:%s' % (what, diffs[0][0])
 
@@ -252,10 +257,16 @@ def run(ctx):
         found |= check_send_direct(ctx, case, impl)
         send_lits.append(U.send_case_lit(case, impl))
         ctx.count('unit-send', 1, [(case['cls'], impl['out'][0] if impl['out'][0] != 'raised' else impl['out'][1][0], min(impl['y'], 4))])
-    # the witness of buffered_flush_order_refuted, replayed on the code
-    wit = dict(ops=[('B', True), ('S', bytes([1, 2, 3])), ('Fl',), ('B', False)],
-               script=[('A', 1), ('F', errno.EWOULDBLOCK), ('A', 5)], cls=('witness', True))
-    buf_cases = [wit] + [U.gen_buf_case(rng) for _ in range(n_buf)]
+    # the witness of sync_flush_is_blocking_socket_api_only replayed on the code: flush() loses data on
+    # would-block (documented blocking-socket API), the generator flush delivers on the same schedule
+    from tlslite.bufferedsocket import BufferedSocket
+    has_async = hasattr(BufferedSocket, 'flush_async')
+    if not has_async:
+        tie_broken = 'BufferedSocket.flush_async is missing: the generator flush path modelled by WFlushA does not exist'
+    wsched = [('A', 1), ('F', errno.EWOULDBLOCK), ('A', 5)]
+    wit = dict(ops=[('B', True), ('S', bytes([1, 2, 3])), ('Fl',), ('B', False)], script=wsched, cls=('witness', True, 'sync'))
+    wit_a = dict(ops=[('B', True), ('S', bytes([1, 2, 3])), ('FlA',), ('B', False)], script=wsched, cls=('witness', True, 'async'))
+    buf_cases = [wit] + ([wit_a] if has_async else []) + [U.gen_buf_case(rng, has_async) for _ in range(n_buf)]
     buf_lits = []
     for case in buf_cases:
         impl = U.impl_buf(case)
@@ -264,7 +275,7 @@ def run(ctx):
         ctx.count('unit-buffered', 1, [(case['cls'], impl['out'][0] if impl['out'][0] != 'raised' else impl['out'][1][0])])
     wi = U.impl_buf(wit)
     if not (wi['out'] == ('raised', ('sock', errno.EWOULDBLOCK)) and wi['wire'] == bytes([1]) and wi['queue'] == []):
-        tie_broken = 'the witness of buffered_flush_order_refuted no longer behaves as the model says: %r' % (wi,)
+        tie_broken = 'the witness of sync_flush_is_blocking_socket_api_only no longer behaves as the model says: %r' % (wi,)
     def_cases = [U.gen_defrag_case(rng) for _ in range(n_def)]
     def_lits = []
     for case in def_cases:
@@ -333,14 +344,17 @@ def run(ctx):
                 ctx.count('live-reframed-records', 1, [(r['name'], s['reframe'], rf[0] != rf[1] or rf[2] != rf[3])])
             if diffs:
                 key = sys_key(s, diffs, outcome)
-                new = ctx.violation(key, FLUSH_WHAT if key == FLUSH_KEY else
-                                    'live connection (%s) under schedule %s differs from the unconstrained run in %s: %s'
-                                    % (r['name'], cls, diffs[0][0], repr(diffs[0][2:])[:300]),
-                                    {'kind': 'sys', 'scenario': r['name'], 'sched': s, 'seed_task': r.get('seed'),
-                                     'diffs': repr(diffs)[:4000],
-                                     'how': './check C14 --replay <this file> reruns the scenario under the schedule'})
-                if key != FLUSH_KEY:
-                    found = True
+                what = 'live connection (%s) under schedule %s differs from the unconstrained run in %s: %s' % (
+                    r['name'], cls, diffs[0][0], repr(diffs[0][2:])[:300])
+                if key.startswith(WB_KEY):
+                    what = WB_WHAT + '; ' + what
+                if key.startswith('sync-flush-reached'):
+                    what = 'socket.sendall (BufferedSocket.flush(), blocking-socket API) was reached from the generator API; ' + what
+                ctx.violation(key, what,
+                              {'kind': 'sys', 'scenario': r['name'], 'sched': s, 'seed_task': r.get('seed'),
+                               'diffs': repr(diffs)[:4000],
+                               'how': './check C14 --replay <this file> reruns the scenario under the schedule'})
+                found = True
     ctx.log('system level: %d live runs over %d scenarios (deterministic wire in %d)'
             % (n_runs, len(set(r['name'] for r in sys_res)), len(set(r['name'] for r in sys_res if r.get('deterministic')))))
     ctx.cov['rule'] = ('unit: scripts = record streams (TLS/SSLv2 headers, limit boundaries, truncation) cut as one chunk / single bytes / '
